@@ -1,41 +1,42 @@
 import Hannibal.Monitor.Basic
 /-
-  Strong-holder bookkeeping shared by C05 and C15: which handles exist, of
-  which kind, and which in-flight operations hold a strong reference.
+  Strong-holder bookkeeping shared by C05 and C15: which handles exist and of
+  which kind, computed from the handle events of the trace alone.
+  (`halt` / `consume` move their handle into the operation: it is released when
+  the operation returns or is dropped.)
 -/
 namespace Hannibal
 
 structure HoldSt where
   handles : List (Nat × HKind)
-  pendStrong : List Nat        -- in-flight operations that own a strong handle (try_*, Caller::call, halt, consume)
-  opKinds : List (Nat × OpKind)
+  ops : List (Nat × (OpKind × Nat))     -- operation ↦ (kind, handle it was issued through)
   deriving Repr, DecidableEq
 
-def HoldSt.init (h0 : Nat) (k0 : HKind) : HoldSt := { handles := [(h0, k0)], pendStrong := [], opKinds := [] }
+def HoldSt.init (h0 : Nat) (k0 : HKind) : HoldSt := { handles := [(h0, k0)], ops := [] }
 
-def HoldSt.kindOf (s : HoldSt) (h : Nat) : Option HKind := lookup h s.handles
+def HoldSt.kindOf (s : HoldSt) (h : Nat) : Option HKind := (s.handles.find? (fun p => p.1 == h)).map (·.2)
 
-def HoldSt.strongHeld (s : HoldSt) : Bool :=
-  s.handles.any (fun p => p.2.strong) || !s.pendStrong.isEmpty
+/-- some strong handle (Addr, OwningAddr, Sender, Caller or clone) exists -/
+def HoldSt.strongHeld (s : HoldSt) : Bool := s.handles.any (fun p => p.2.strong)
+
+def HoldSt.remove (s : HoldSt) (h : Nat) : HoldSt := { s with handles := s.handles.filter (fun p => p.1 != h) }
+
+def HoldSt.release (s : HoldSt) (o : Nat) : HoldSt :=
+  match lookup o s.ops with
+  | some (.halt, h) | some (.consume, h) => s.remove h
+  | _ => s
 
 def HoldSt.step (s : HoldSt) : Label → HoldSt
-  | .mk _ h' k' => { s with handles := (h', k') :: s.handles }
+  | .mk _ h' k' => { s with handles := s.handles ++ [(h', k')] }
   | .upgrade h (some h') =>
     (match (s.kindOf h).bind HKind.upgraded with
-     | some k => { s with handles := (h', k) :: s.handles }
+     | some k => { s with handles := s.handles ++ [(h', k)] }
      | none => s)
-  | .detach h h' => { s with handles := (h', .addr) :: s.handles.filter (fun p => p.1 != h) }
-  | .drop h => { s with handles := s.handles.filter (fun p => p.1 != h) }
-  | .ctxWeak k (some h) => { s with handles := (h, k) :: s.handles }
-  | .begin o h k =>
-    let s := { s with opKinds := (o, k) :: s.opKinds }
-    (match k with
-     | .trySend _ | .tryCall _ | .tryHalt | .callw _ => { s with pendStrong := o :: s.pendStrong }
-     | .halt | .consume =>
-       -- the handle moves into the operation
-       { s with pendStrong := o :: s.pendStrong, handles := s.handles.filter (fun p => p.1 != h) }
-     | _ => s)
-  | .ret o _ | .cdrop o => { s with pendStrong := s.pendStrong.filter (fun x => x != o) }
+  | .detach h h' => { s with handles := (s.remove h).handles ++ [(h', .addr)] }
+  | .drop h => s.remove h
+  | .ctxWeak k (some h) => { s with handles := s.handles ++ [(h, k)] }
+  | .begin o h k => { s with ops := (o, (k, h)) :: s.ops }
+  | .ret o _ | .cdrop o => s.release o
   | _ => s
 
 end Hannibal
